@@ -7,6 +7,14 @@ mkdir -p "$VERIF_ROOT/.build"
 cd "$VERIF_ROOT/mc" || exit 2
 case "$1" in
   mccheck)
-    go build -o "$VERIF_ROOT/.build/mccheck" ./cmd/mccheck ;;
+    ov=$(go run ./cmd/mkoverlay plain "$VERIF_ROOT/.build/ov-plain") || exit 2
+    if ! go build -overlay "$ov" -o "$VERIF_ROOT/.build/mccheck" ./cmd/mccheck 2>"$VERIF_ROOT/.build/mccheck.err"; then
+      echo "note: build with private-state dump files failed, retrying with -tags nodump (no state merging for statecache/wmpt/logging checks)" >&2
+      cat "$VERIF_ROOT/.build/mccheck.err" >&2
+      go build -tags nodump -o "$VERIF_ROOT/.build/mccheck" ./cmd/mccheck
+    fi ;;
+  mcsched)
+    ov=$(go run ./cmd/mkoverlay sched "$VERIF_ROOT/.build/ov-sched") || exit 2
+    go build -modfile=go.sched.mod -overlay "$ov" -o "$VERIF_ROOT/.build/mcsched" ./cmd/mcsched ;;
   *) echo "unknown binary $1" >&2; exit 2 ;;
 esac
